@@ -21,7 +21,7 @@ type C18 struct{}
 
 func (e *C18) Name() string { return "fn.c18" }
 func (e *C18) Rule() string {
-	return "seeded populations of 1-4 settings (creation times equal/different, matchLabels/matchExpressions selectors, with/without reference, optionally one unusable selector, optionally one in another namespace) x 1-4 labelled nodes; every permutation of the reconcile order (<=24), two passes each, through the real setting reconciler; then one real replica-set sync whose created pods show which setting was attached to which node; non-trivial = distinct populations with at least two settings overlapping on a node"
+	return "seeded populations of 1-4 settings (creation times equal/different, matchLabels/matchExpressions/empty (select-everything) selectors, with/without reference, optionally one unusable selector, optionally one in another namespace) x 1-4 labelled nodes; every permutation of the reconcile order (<=24), two passes each, through the real setting reconciler; then one real replica-set sync whose created pods show which setting was attached to which node; non-trivial = distinct populations with at least two settings overlapping on a node"
 }
 func (e *C18) Cases(tier string, _ int64) int {
 	if tier == "thorough" {
@@ -126,7 +126,10 @@ func (e *C18) Run(ctx *core.Ctx, idx int) {
 	withBroken := r.Intn(5) == 0
 	for i := 0; i < ns; i++ {
 		d := c18Setting{Name: fmt.Sprintf("s%d", i), NS: "ns", HasRef: r.Intn(6) != 0, Created: time.Duration(r.Intn(3)) * time.Minute, CPU: fmt.Sprintf("%d", 1+i)}
-		switch r.Intn(5) {
+		switch r.Intn(6) {
+		case 5:
+			// no matchLabels and no matchExpressions: the setting selects every node
+			d.Sel = metav1.LabelSelector{}
 		case 0:
 			d.Sel = metav1.LabelSelector{MatchLabels: map[string]string{"zone": []string{"a", "b"}[r.Intn(2)]}}
 		case 1:
